@@ -128,11 +128,19 @@ def run_case(seed, index, acc=None, count=True):
             folders.add(d)
         quiesce_and_check()
         nops = rng.randrange(6, 17)
+        forced = ["rcreate", "request", "unrequest", "request", "rwrite", "lwrite", "rwrite"] if index % 5 == 4 else []
+        nops += len(forced)
         for _ in range(nops):
             if probs:
                 break
             k = rng.choice(("rcreate", "rcreate", "rwrite", "rdelete", "lcreate", "lwrite", "request", "request", "unrequest",
                             "rmkdir", "rrename", "ldelete"))
+            if forced:
+                k = forced.pop(0)       # every fifth case starts with a request -> un-request -> request cycle and edits
+                quiesce_and_check()
+                if probs:
+                    break
+                cands_remote = [p for p, v in files.items() if v["rdata"] is not None and p not in dirty]
             cands_remote = [p for p, v in files.items() if v["rdata"] is not None and p not in dirty]
             if k == "rcreate":
                 d = rng.choice(sorted(folders))
@@ -146,7 +154,8 @@ def run_case(seed, index, acc=None, count=True):
                 sim.user({"side": 1, "op": "mkdir", "path": p})
                 folders.add(p)
             elif k == "rwrite" and cands_remote:
-                p = rng.choice(cands_remote)
+                rr = [x for x in cands_remote if files[x].get("rereq") and files[x]["local"]]
+                p = rng.choice(rr) if rr and rng.random() < 0.7 else rng.choice(cands_remote)   # edits of re-requested files
                 data = cont.fresh(1, 12)
                 sim.user({"side": 1, "op": "write", "path": p, "data": data})
                 files[p]["rdata"] = data
@@ -226,7 +235,11 @@ def run_case(seed, index, acc=None, count=True):
                 quiesce_and_check()             # the engine must know the remote file before it can be requested
                 if probs:
                     break
-                p = rng.choice(c)
+                again = [x for x in c if files[x].get("unreq")]
+                p = rng.choice(again) if again and rng.random() < 0.7 else rng.choice(c)     # request -> un-request -> request
+                if files[p].get("unreq"):
+                    files[p]["rereq"] = True
+                    stats["rerequests"] = stats.get("rerequests", 0) + 1
                 stats["requests"] += 1
                 try:
                     if rng.random() < 0.5:
@@ -286,6 +299,7 @@ def run_case(seed, index, acc=None, count=True):
             acc.count("engine_steps", sim.steps)
             acc.count("requests", stats["requests"])
             acc.count("unrequests", stats["unrequests"])
+            acc.count("requests_of_files_un_requested_before", stats.get("rerequests", 0))
             acc.count("listings_checked", stats["listings"])
             acc.add("predicates", pk)
             acc.add("flavours", flavour)
